@@ -134,8 +134,8 @@ M("c03_xor_lanes_swapped", ["C03"],
 M("c03_mask_bit_omitted_for_empty", ["C03"],
   ("lomond/frame.py", "        mask_bit = 1 << 7 if mask else 0", "        mask_bit = 1 << 7 if (mask and len(payload)) else 0"))
 M("c03_rsv1_always", ["C03", "C06"],
-  ("lomond/session.py", "        frame = Frame(opcode, payload=bytearray(data))\n        self.write(frame.to_bytes())\n        log.debug(' SRV <- CLI : %r', frame)\n\n    def send_compressed",
-   "        frame = Frame(opcode, payload=bytearray(data), rsv1=1 if opcode == 2 else 0)\n        self.write(frame.to_bytes())\n        log.debug(' SRV <- CLI : %r', frame)\n\n    def send_compressed"))
+  ("lomond/session.py", "        frame = Frame(opcode, payload=bytearray(data))\n        self.write(frame.to_bytes(), closing=frame.is_close)",
+   "        frame = Frame(opcode, payload=bytearray(data), rsv1=1 if opcode == 2 else 0)\n        self.write(frame.to_bytes(), closing=frame.is_close)"))
 M("c03_payload_not_copied", ["C03"],
   ("lomond/websocket.py", "        if not isinstance(data, bytes):\n            raise TypeError('data argument must be bytes')\n        if compress and self.state.compression:",
    "        if not isinstance(data, (bytes, bytearray)):\n            raise TypeError('data argument must be bytes')\n        if compress and self.state.compression:"))
@@ -148,8 +148,8 @@ M("c03_json_kwargs_and_obj_merged", ["C03"],
 M("c03_close_code_little_endian", ["C03"],
   ("lomond/frame.py", "    _pack_close_code = struct.Struct(b'!H').pack", "    _pack_close_code = struct.Struct(b'<H').pack"))
 M("c03_header_and_body_two_writes", ["C03"],
-  ("lomond/session.py", "        frame = Frame(opcode, payload=bytearray(data))\n        self.write(frame.to_bytes())",
-   "        frame = Frame(opcode, payload=bytearray(data))\n        _b = frame.to_bytes()\n        self.write(_b)"),
+  ("lomond/session.py", "        frame = Frame(opcode, payload=bytearray(data))\n        self.write(frame.to_bytes(), closing=frame.is_close)",
+   "        frame = Frame(opcode, payload=bytearray(data))\n        _b = frame.to_bytes()\n        self.write(_b, closing=frame.is_close)"),
   equivalent=True)
 M("c03_text_encoded_surrogatepass", ["C03"],
   ("lomond/websocket.py", "        payload = text.encode('utf-8')", "        payload = text.encode('utf-8', 'surrogatepass')"),
@@ -160,7 +160,7 @@ M("c07_no_ready_gate", ["C07"],
   ("lomond/session.py", "            if self._ready:\n                return self._regular(", "            if True:\n                return self._regular("),
   ("lomond/session.py", "        self._next_ping = None\n        self._last_pong = None", "        self._next_ping = 0.0\n        self._last_pong = 0.0"))
 M("c07_disconnected_in_finally", ["C07"],
-  ("lomond/session.py", "        finally:\n            selector.close()", "        finally:\n            selector.close()\n            if websocket.is_closing:\n                yield events.Disconnected('closed')"))
+  ("lomond/session.py", "            self._close_socket()\n            selector.close()", "            self._close_socket()\n            selector.close()\n            if websocket.is_closing:\n                yield events.Disconnected('closed')"))
 M("c07_while_true", ["C08"],
   ("lomond/session.py", "            while not websocket.is_closed:", "            while True:"))
 M("c07_eof_ignored_when_closing", ["C07", "C08"],
@@ -195,8 +195,7 @@ M("c08_no_break_after_closed", ["C08"],
    "                if False:\n                    break\n\n        except errors.CriticalProtocolError"),
   equivalent=True)   # nothing is generated after the server's reply Close, so behaviour is identical
 M("c08_closed_event_without_state", ["C08"],
-  ("lomond/websocket.py", "            yield events.Closed(message.code, message.reason)\n            self.state.closing = False\n            self.state.closed = True",
-   "            yield events.Closed(message.code, message.reason)\n            self.state.closing = False"))
+  ("lomond/websocket.py", "            self.state.closed = True\n            self.state.closing = False\n", "            self.state.closing = False\n"))
 M("c08_closing_event_after_echo", ["C08"],
   ("lomond/websocket.py", "            yield events.Closing(message.code, message.reason)\n            self.close(message.code, message.reason)",
    "            self.close(message.code, message.reason)\n            yield events.Closing(message.code, message.reason)"))
